@@ -371,6 +371,21 @@ package transport
 //@   nopanic
 //@   pure
 //@ func (MultipartMixed).Do [C03,C10,C05,C12,C04]
+// C12 "delivering the initial payload and every incremental payload exactly once and in order": every response
+// obtained is handed to the aggregator once, as obtained, before the next is asked for; the first - and only the
+// first - as the initial payload
+//@   ghost last = nil
+//@   ghost unsent = 0
+//@   ghost added = 0
+//@   at `nextResponse(...` requires unsent == 0
+//@   at `nextResponse(...` ghost last = callres0
+//@   at `nextResponse(...` ghost unsent = ite(callres0 != nil, 1, 0)
+//@   at! `a.Add(response, initialResponse)` requires arg0 == last && unsent == 1 && arg1 == (added == 0)
+//@   at! `a.Add(response, initialResponse)` ghost unsent = 0
+//@   at! `a.Add(response, initialResponse)` ghost added = added + 1
+//@   loop 1: invariant unsent == 0
+//@   loop 1: invariant initialResponse == (added == 0)
+//@   loop 1: invariant added >= 0
 //@   ghost drained = false
 //@   at `nextResponse(...` ghost drained = callres0 == nil
 //@   ensures @C05 calls(DispatchOperation) >= 1 ==> drained
